@@ -86,6 +86,14 @@ class C09(Check):
                 for first in range(5):            # shard on the onboarded answer
                     for v1 in (False, True):
                         cs.append({"platform": platform, "pin": pinstate, "onb": first, "v1": v1})
+        # the bring-up repeated in the middle of a manager's life (reconnection after a link failure):
+        # the device comes back with an obstacle the bring-up must stop at; the client that triggered it
+        # may be gone when the reply is written
+        for platform in ("ledger", "sgx"):
+            for v1 in (False, True):
+                for obstacle in ("retries-1", "retries-0", "not-onboarded", "none"):
+                    for client in ("present", "reset", "closed"):
+                        cs.append({"relink": obstacle, "platform": platform, "v1": v1, "client": client})
         return cs
 
     def driver(self, case):
@@ -153,7 +161,108 @@ class C09(Check):
             return dev, w, cfg, record, crashed, fs
         return run
 
+    def relink(self, case, stats):
+        import json
+        import mgr.runner as RUN
+        import manager_ledger
+        import manager_sgx
+        from sgx.hsm2dongle import HSM2DongleSGX
+        from ledger.hsm2dongle import HSM2Dongle
+        from comm.platform import Platform
+        from .c10 import PinDevice
+        vs = []
+        stats.evaluations += 1
+        platform, v1, obstacle, client = case["platform"], case["v1"], case["relink"], case["client"]
+        dev = PinDevice(platform, GOOD_PIN)
+        dev.mode, dev.unlocked = 3, True          # serving manager: the signer is running
+        w = World(dev)
+        harness.bind_world(w)
+        fs = memfs.MemFS()
+        fs.files[PIN_FILE] = GOOD_PIN
+
+        class Rec(list):
+            pass
+        record = Rec()
+        out = {"served": False, "o": []}
+        req = json.dumps({"command": "getPubKey", "version": 1 if v1 else 5,
+                          "keyId": "m/44'/137'/0'/0/0"}).encode()
+
+        def on_serve(server):
+            out["served"] = True
+            base = w.seq
+            w.inject = lambda world, i, apdu: ("read",) if i == base else None
+            out["o"].append(fakeserver.serve_line(server, req))
+            w.inject = None
+            dev.power_cycle()                      # back locked, in the bootloader
+            if obstacle == "retries-1":
+                dev.retries = 1
+            elif obstacle == "retries-0":
+                dev.retries = 0
+            elif obstacle == "not-onboarded":
+                dev.wiped = True
+            out["mark"] = len(w.log)
+            out["o"].append(fakeserver.serve_line(server, req, client=client))
+            out["mark2"] = len(w.log)
+            if not out["o"][-1].shutdown:
+                out["o"].append(fakeserver.serve_line(server, req))
+        record.on_serve = on_serve
+        seams = fakeserver.ManagerSeams(fs, record, DetRandom(), {"PIN": DEFAULT_PIN.decode()}, PIN_DIR)
+        seams.install()
+        options = types.SimpleNamespace(
+            pin_file=PIN_FILE, force_pin_change=False, logconfigfilepath="x", version_one=v1,
+            host="localhost", port=9999, io_debug=False, tcpconn_host="h", tcpconn_port=1)
+        crashed = None
+        try:
+            if platform == "ledger":
+                Platform.set(Platform.LEDGER)
+                runner = RUN.ManagerRunner("m", lambda o: HSM2Dongle(o.io_debug), manager_ledger.load_pin)
+            else:
+                Platform.set(Platform.SGX)
+                runner = RUN.ManagerRunner(
+                    "m", lambda o: HSM2DongleSGX(o.tcpconn_host, o.tcpconn_port, o.io_debug), manager_sgx.load_pin)
+            runner.run(options)
+        except BaseException as e:   # noqa
+            crashed = type(e).__name__
+        finally:
+            seams.restore()
+        o = out["o"]
+        stopped = len(o) >= 2 and o[1].shutdown
+        pin_traffic = [e[2] for e in w.log[out.get("mark", 0):] if e[0] == "x"
+                       and e[2][1] in (0x41, 0xFE, 0xA3, 0x08, 0xA5)]
+        stats.observe(("relink", platform, v1, obstacle, client, stopped, bool(pin_traffic), crashed,
+                       len(o)), nontrivial=True)
+
+        def viol(clause, observed, expected):
+            vs.append(Violation("C09", "C09:%s:relink-%s:%s" % (clause, obstacle, platform), dict(case), None,
+                                observed, expected, clause))
+        if not out["served"] or len(o) < 2:
+            viol("relink-scenario-not-served", {"crashed": crashed, "served": out["served"]}, "served")
+            return vs
+        if obstacle == "none":
+            # nothing in the way: unlock (once), go on serving
+            if stopped or (len(o) > 2 and not isinstance(o[2].reply, dict)):
+                viol("stops-without-reason", {"stopped": stopped, "replies": [x.reply for x in o]},
+                     "the repaired manager goes on serving")
+            return vs
+        if pin_traffic:
+            viol("pin-sent-to-unsafe-device", {"apdus": [a.hex() for a in pin_traffic[:4]]},
+                 "no PIN / unlock traffic")
+        derr = -2 if v1 else -905
+        later = [e for e in w.log[out.get("mark", 0):] if e[0] == "x"]
+        commands = [e for e in later if e[2][1] == 0x04]           # the request's own APDU (getPubKey)
+        refused = all(isinstance(x.reply, dict) and x.reply.get("errorcode") == derr for x in o[2:]) and \
+            (client != "present" or (isinstance(o[1].reply, dict) and o[1].reply.get("errorcode") == derr))
+        if not stopped and (commands or not refused):
+            # either the manager stops, or it keeps answering the device-error code without ever
+            # sending a command to the device it refused
+            viol("serves-iff-safe", {"client": client, "stopped": stopped, "command_apdus": len(commands),
+                                     "replies": [x.reply for x in o], "exchanges_afterwards": len(later)},
+                 "the manager stops: the bring-up refused the device")
+        return vs
+
     def run_case(self, case, stats):
+        if case.get("relink"):
+            return self.relink(case, stats)
         vs = []
         run = self.driver(case)
 
